@@ -680,7 +680,7 @@ func (v Value) convert(t Type) (res Value) {
 }
 
 func (v Value) IsNil() bool {
-	switch v.t {
+	switch v.t.base() { // the kind: a nil []int, map[string]int or *T carries its full type
 	case TypeNil:
 		return true
 	case TypeObject, TypeFunc, TypeSlice, TypeStruct, TypeMap:
